@@ -80,6 +80,11 @@ CondArmHybrid(body) ==
             THEN FALSE
             ELSE ContainsHybrid(arm)
 
+\* S1e: the value expression of a statement-expression is itself side-effecting (a call, a postfix operation, a nested
+\*      statement-expression): its pending effect is queued in front of the statement-expression's statements
+StmtExprValueHybrid(body) ==
+    \E n \in SeqNodes(body) : n.k = "stmtexpr" /\ \E m \in ExprNodes(n.e) : IsHybrid(m) /\ m.k # "assign"
+
 \* S2: a side-effecting sub-expression is the right operand of && or ||
 LogicalRhsHybrid(body) ==
     \E n \in SeqNodes(body) : n.k = "bin" /\ n.o \in {"&&", "||"} /\ ContainsHybrid(n.b)
@@ -180,6 +185,7 @@ ShapesOf(body) ==
     (IF ConstCondShared(body) THEN {"ConstCondShared"} ELSE {}) \cup
     (IF UnusedHybridStmt(body) THEN {"UnusedHybridStmt"} ELSE {}) \cup
     (IF LoopCondHybrid(body) THEN {"LoopCondHybrid"} ELSE {}) \cup
-    (IF CondArmHybrid(body) THEN {"CondArmHybrid"} ELSE {})
+    (IF CondArmHybrid(body) THEN {"CondArmHybrid"} ELSE {}) \cup
+    (IF StmtExprValueHybrid(body) THEN {"StmtExprValueHybrid"} ELSE {})
         \cup (IF LogicalRhsHybrid(body) THEN {"LogicalRhsHybrid"} ELSE {})
 =============================================================================
